@@ -36,6 +36,10 @@ def piece(rng, tr, conflict=False):
         p['Ts'] = Ts
         p['Cps'] = [tr['tab'][T] for T in Ts]
         p['range'] = list(WIDE)
+        if rng.random() < 0.5:
+            # a range that just covers this piece: merging then has to WIDEN the range of what it is merged into
+            lo, hi = min(Ts + [tr['T_ref']]), max(Ts + [tr['T_ref']])
+            p['range'] = [max(WIDE[0], lo - rng.choice([0.0, 10.0, 48.15])), min(WIDE[1], hi + rng.choice([0.0, 25.0, 200.0]))]
     elif rng.random() < 0.3:
         p['range'] = rng.choice([list(WIDE), [100.0, 1500.0]])
     if conflict:
@@ -127,6 +131,20 @@ def oracle_seq(ctx, job, res, key):
             if not ok:
                 ctx.violate(kk + '|union', 'the merged correlation is not the union of the data (other wins on overwrite)', dict(job, step=k),
                             {'H': want['H'], 'S': want['S'], 'tab': want_tab}, now)
+            sv = r.get('self_vals') or {}
+            if 'cur' in sv:
+                def same_val(a, b):
+                    if 'exc' in a or 'exc' in b:
+                        return a.get('exc') == b.get('exc')
+                    if a.get('v') is None or b.get('v') is None:
+                        return a.get('v') == b.get('v')
+                    return abs(a['v'] - b['v']) <= 1e-10 * (1 + abs(b['v']))
+                for pn in ('cp', 'h', 's'):
+                    bad = [T for T, a, b in zip(sv['T'], sv['cur'][pn], sv['fresh'][pn]) if not same_val(a, b)]
+                    if bad:
+                        ctx.violate(kk + '|stale', 'after a merge the correlation does not evaluate like one constructed afresh from its merged state (%s)' % pn,
+                                    dict(job, step=k, T=bad[0]), 'as a fresh correlation', {'T': bad[:4]})
+                        break
             if st.get('twice_of') is not None and now != prev and not conflicts:
                 ctx.violate(kk + '|idempotent', 'merging the same data twice changed the correlation', dict(job, step=k), prev, now)
         prev = now
